@@ -88,6 +88,12 @@ def base_models():
                        "center_dispersion_coefficients": ["ig.d1"]}},
         "dataset": {"d1": {"megacomplex": ["pa", "pf"], "irf": "ig"}},
     }  # fmt: skip
+    # parameter labels without any group prefix (list-style parameter files): "1", "2", "c", "w", "scale"
+    models["flat_labels"] = {
+        "megacomplex": {"p": {"type": "decay-parallel", "compartments": ["a", "b"], "rates": ["1", "2"]}},
+        "irf": {"g": {"type": "gaussian", "center": "c", "width": "w"}},
+        "dataset": {"d1": {"megacomplex": ["p"], "irf": "g", "scale": "scale"}},
+    }  # fmt: skip
     models["spectral_model"] = {
         "megacomplex": {"sp": {"type": "spectral", "shape": {"u": "one1", "v": "g1"}}, "guide": {"type": "clp-guide", "dimension": "spectral", "target": "u"}},
         "shape": {"one1": {"type": "one"}, "g1": {"type": "gaussian", "location": "g1.l", "width": "g1.w"}},
@@ -231,6 +237,8 @@ def case_relabel(case):
 
 def case_model(case):
     md0 = base_models()[case["base"]]
+    if case.get("relabel"):  # the same mutations on the twin whose item labels coincide across item kinds
+        md0 = relabel(md0, case["relabel"])
     md = copy.deepcopy(md0)
     labels = all_parameter_labels(md0)
     vals = values_for(labels)
@@ -287,7 +295,7 @@ def case_model(case):
         unexpected = [i for i in issues if i.startswith("Missing") and i not in expected]
         if unexpected:
             vs.append(V("spurious-missing-issue", mutation=mut, unexpected=unexpected[:5]))
-    return core.ok(key=[case["base"], mut], outcome=[len(issues), valid], violations=vs)
+    return core.ok(key=[case["base"], case.get("relabel"), mut], outcome=[len(issues), valid], violations=vs)
 
 
 def clean_model_usable(base, model, md, params):
@@ -432,6 +440,17 @@ def run(run: core.Run):
         for i, ps in enumerate(pos):
             if ps[4] == "param" and "." in str(ps[6]):
                 cases.append({"base": base, "mutation": {"kind": "truncate", "position": i}})
+    for base, md in base_models().items():
+        for style in ("numbers", "same"):
+            mdr = relabel(md, style)
+            posr = positions(mdr)
+            for i, ps in enumerate(posr):
+                if ps[4] == "model":
+                    cases.append({"base": base, "relabel": style, "mutation": {"kind": "misspell", "positions": [i]}})
+            for section in ("megacomplex", "irf", "initial_concentration", "k_matrix", "shape"):
+                for key in mdr.get(section, {}):
+                    if any(p[4] == "model" and p[5] == section and p[6] == key for p in posr):
+                        cases.append({"base": base, "relabel": style, "mutation": {"kind": "remove_item", "section": section, "key": key}})
     run.map("model", cases)
     rules = []
     for order in itertools.permutations(["m1", "m3", "m3b"]):
